@@ -154,7 +154,7 @@ func (c03) Generate(tier string, yield func(*engine.Case) bool) {
 			if keep != nil && !keep(c) {
 				return true
 			}
-			if len(c.Data) == 0 {
+			if !c.HasPayload() {
 				// families with their own runner: the wide literals are taken over as plain programs
 				if len(c.Args) == 3 && c.Args[0] == "wide" {
 					var n int
